@@ -657,13 +657,32 @@ class SemantivaOrchestrator(ABC):
         for k, v in declared.items():
             params_out[k] = serialize_json_safe(v)
             source_out[k] = "node"
-        for k in required_keys:
+        name_getter = getattr(node.processor, "get_processing_parameter_names", None)
+        try:
+            param_names = list(name_getter() or []) if callable(name_getter) else []
+        except Exception:
+            param_names = []
+        # Runtime precedence is config > context > default for every parameter
+        for k in [*required_keys, *param_names]:
             if k not in params_out and k in ctx_view:
                 params_out[k] = serialize_json_safe(ctx_view[k])
                 source_out[k] = "context"
         for k, v in defaults.items():
             if k not in params_out:
                 params_out[k] = serialize_json_safe(v)
+                source_out[k] = "default"
+        declared_defaults = self._parameter_defaults(node.processor)
+        for k in param_names:
+            if k in params_out:
+                continue
+            info = declared_defaults.get(k)
+            default = _NO_DEFAULT
+            if isinstance(info, ParameterInfo):
+                default = info.default
+            elif isinstance(info, dict):
+                default = info.get("default", _NO_DEFAULT)
+            if default is not _NO_DEFAULT:
+                params_out[k] = serialize_json_safe(default)
                 source_out[k] = "default"
         return params_out, source_out
 
